@@ -92,6 +92,18 @@ type gatedSet struct {
 	gate *sched.Gate
 }
 
+// gatedView is an argument set whose ToSlice parks at a gate (a view of the receiver handed to Replace).
+type gatedView struct {
+	ds.ReadableSet[int]
+	gate *sched.Gate
+}
+
+func (g *gatedView) ToSlice() []int {
+	r := g.ReadableSet.ToSlice() // (parks AFTER the view was read: what is returned is the contents of that moment)
+	g.gate.Wait("arg-toslice")
+	return r
+}
+
 func (g *gatedSet) ForEach(cb func(int) error) error {
 	return g.ReadableSet.ForEach(func(x int) error {
 		g.gate.Wait("arg-foreach")
@@ -184,6 +196,57 @@ func setConc(args []string) int {
 		_ = enc.Encode(core.Ev{"ev": "final", "hung": core.Seq(hung), "contents": []any{}, "scenario": "DeleteAll || " + second})
 		lg.mu.Unlock()
 		_ = s
+	}
+
+	// forced schedule: Replace with a view of the set itself (which Replace explicitly allows) is held while it reads that
+	// view; a writer arrives (it has to wait: the view is read inside Replace's critical section); the Replace goes on.
+	// The history must be linearizable: whatever the writer reports as done is still there afterwards.
+	for _, second := range []string{"Add", "Delete", "Toggle", "Apply"} {
+		lg := &hlog{}
+		s := ds.NewSet[int]()
+		for _, x := range []int{1, 2} {
+			lg.add(core.Ev{"ev": "inv", "t": 6, "op": "Add", "a": x})
+			lg.add(core.Ev{"ev": "ret", "t": 6, "res": s.Add(x)})
+		}
+		gate := sched.NewGate()
+		gate.Hold("arg-toslice")
+		chs := []chan struct{}{make(chan struct{}), make(chan struct{})}
+		go func() {
+			defer close(chs[0])
+			lg.add(core.Ev{"ev": "inv", "t": 1, "op": "ReplaceSelf", "a": []any{}})
+			r := s.Replace(&gatedView{ReadableSet: s.ReadOnly(), gate: gate})
+			lg.add(core.Ev{"ev": "ret", "t": 1, "res": sortedInts(r)})
+		}()
+		sched.Quiesce(2 * time.Second)
+		go func() {
+			defer close(chs[1])
+			switch second {
+			case "Add":
+				lg.add(core.Ev{"ev": "inv", "t": 2, "op": "Add", "a": 3})
+				lg.add(core.Ev{"ev": "ret", "t": 2, "res": s.Add(3)})
+			case "Delete":
+				lg.add(core.Ev{"ev": "inv", "t": 2, "op": "Delete", "a": 1})
+				lg.add(core.Ev{"ev": "ret", "t": 2, "res": s.Delete(1)})
+			case "Toggle":
+				lg.add(core.Ev{"ev": "inv", "t": 2, "op": "Toggle", "a": 3})
+				m := s.Compute(func(cur ds.ReadableSet[int]) ds.SetMutations[int] {
+					if cur.Has(3) {
+						return ds.NewSetMutations[int]().WithDeletedElements(mkSet(3))
+					}
+					return ds.NewSetMutations[int]().WithAddedElements(mkSet(3))
+				})
+				lg.add(core.Ev{"ev": "ret", "t": 2, "res": core.Ev{"added": sortedInts(m.AddedElements()), "deleted": sortedInts(m.DeletedElements())}})
+			case "Apply":
+				lg.add(core.Ev{"ev": "inv", "t": 2, "op": "Apply", "a": core.Ev{"add": core.Seq([]int{3}), "del": core.Seq([]int{2})}})
+				m := s.Apply(ds.NewSetMutations[int]().WithAddedElements(mkSet(3)).WithDeletedElements(mkSet(2)))
+				lg.add(core.Ev{"ev": "ret", "t": 2, "res": core.Ev{"added": sortedInts(m.AddedElements()), "deleted": sortedInts(m.DeletedElements())}})
+			}
+		}()
+		sched.Quiesce(2 * time.Second)
+		gate.ReleaseAll()
+		hung := waitAll(chs, 3*time.Second)
+		hangs += len(hung)
+		emit(enc, lg, s, hung, true)
 	}
 
 	// linearizability histories
